@@ -60,7 +60,7 @@ GRID = grid()
 
 
 def budget(tier):
-    return 10000 if tier == "quick" else 2 * len(GRID) + 5 * 52 + 100_000
+    return 10000 if tier == "quick" else 2 * len(GRID) + 5 * 52 + 300_000
 
 
 def wall(tier):
